@@ -175,6 +175,8 @@ def r2_init(ck, prog, run):
         ("IntensitySignal", arr((N, NCHAN), "float16"), kw_radio, "float64", "safe cast float16 -> float64"),
         ("BasebandSignal", arr((N, NCHAN), "float64"), kw_bb, "complex128", "safe cast float64 -> complex128"),
         ("BasebandSignal", arr((N, NCHAN), "complex64"), kw_bb, "complex64", "allowed dtype kept"),
+        ("IntensitySignal", arr((N, NCHAN), "float32:swapped"), kw_radio, "float64", "non-native byte order float32 is not in the allowed set: safe cast to float64"),
+        ("BasebandSignal", arr((N, NCHAN), "complex64:swapped"), kw_bb, "complex128", "non-native byte order complex64: safe cast to complex128"),
         ("DualPolarizationSignal", arr((N, NCHAN, 2, K), "complex128"), kw_dp, "complex128", "trailing dimensions allowed"),
         ("FullStokesSignal", arr((N, NCHAN, 4), "float64"), kw_radio, "float64", "four Stokes components"),
     ]
